@@ -1,3 +1,3 @@
 From Coq Require Import List Arith Extraction ExtrOcamlBasic ExtrOcamlNatInt.
 From CMI Require Import Cxx.C01_Defs.
-Extraction "c01_model.ml" step init no_buffers aget mkRun.
+Extraction "c01_model.ml" step init no_buffers aget mkRun append_active.
